@@ -136,7 +136,14 @@ func (e *CallExpr) String() string {
 		args = append(args, e.String())
 	}
 	if len(args) > 0 && e.Ellipsis.IsValid() {
-		args[len(args)-1] = args[len(args)-1] + "..."
+		last := args[len(args)-1]
+		switch e.Args[len(e.Args)-1].(type) {
+		case *IntLit, *FloatLit:
+			// "1..." would be scanned as the float literal "1." followed
+			// by ".."
+			last = "(" + last + ")"
+		}
+		args[len(args)-1] = last + "..."
 	}
 	return e.Func.String() + "(" + strings.Join(args, ", ") + ")"
 }
